@@ -118,7 +118,7 @@ def diff_cases(draw):
     for L in spec['layers']:
         if draw(st.integers(0, 99)) < 60:
             L['hooks'] = sorted(set(L['hooks']) | {'setUp', 'tearDown'}, key=gen.HOOKS.index)
-    tokens = gen.add_outputs(draw, spec, prob=60, streams=('p',), bad_bytes=False, max_per_test=2)
+    tokens = gen.add_outputs(draw, spec, prob=60, streams=('p',), bad_bytes=False, max_per_test=2, dots=True)
     nl = len(spec['layers'])
     if draw(st.integers(0, 2)) == 0:
         # names with regular-expression metacharacters, case-only differences, leading zeros
